@@ -1,3 +1,219 @@
-(* C22 - property theorems (being filled in). *)
-From Coq Require Import List NArith ZArith Bool.
-From HV Require Import Model.ValidityWindow Model.Backfill.
+(* C22 - validity-window backfill trusts only the hash-linked ancestry of the sync target.
+   Property theorems only.
+
+   Objects (Model/Backfill.v, Model/ValidityWindow.v): the FetchBlocks loop [client] of
+   BlockFetcherClient and [syncer] (Syncer.Start: populate from the local chain index, then
+   SaveHistorical + AcceptHistorical for every block the client emits), run against a FAULT SEQUENCE
+   [resps]: one entry per request, either an error ([r_blocks = None]) or a list of raw byte strings
+   of any content (unparsable, forged, stale, reordered, truncated, empty), together with the value
+   of the shared minTimestamp when the call returns.  [parse] is the block parser.
+
+   Hash oracle (hypothesis of every theorem): [tree] maps an id to THE block with that id, and every
+   parseable byte string parses to a block stored under its own id
+       forall r b, parse r = Some b -> tree (b_id b) = Some b
+   (a block id is the hash of the block bytes).  [ancestors tree n b] = the first n blocks of the
+   parent-hash chain of b through [tree], nearest first; [chain_from tree b l] says the same
+   relationally; [below_last min l] = the last block of l has ts < min and no other has.
+
+   The emap behind TimeValidityWindow never stores an item with expiry 0 (emap.add returns early,
+   see C09's known finding F-23), hence the "e <> 0" in the tracked sets below. *)
+From Coq Require Import List NArith ZArith Bool Lia.
+Import ListNotations.
+From HV Require Import Model.ValidityWindow Model.Backfill Proofs.ValidityWindow_proofs Proofs.Backfill_proofs.
+Local Open Scope Z_scope.
+
+(* Whatever the peers answer, with any (even changing) minimum: the blocks the client emits are, in
+   order, the first k hash-linked ancestors of the block it started from, for some k; each of them
+   was parsed from bytes some peer sent and is the block the tree holds for its id.  So nothing
+   unparsable, unlinked, out of order or forged is ever emitted. *)
+Theorem C22_prefix : forall (R : Type) (parse : R -> option block) (tree : index),
+  (forall r b, parse r = Some b -> tree (b_id b) = Some b) ->
+  forall (start : block) (resps : list (resp R)) (min : Z),
+  let out := fst (fst (client parse resps min start [] [])) in
+  out = ancestors tree (length out) start /\
+  (forall b, In b out -> from_resps R parse resps b /\ tree (b_id b) = Some b).
+Proof. exact client_prefix. Qed.
+Print Assumptions C22_prefix.
+
+(* Syncer.Start on any local index that is part of the tree, any pre-existing window, any fault
+   sequence: the locally found blocks followed by the saved blocks are the hash-linked ancestors of
+   the TARGET, nearest first (no gap, nothing else saved); and an item id is tracked afterwards
+   (IsRepeat / emap.Contains) iff it was tracked after the local populate or it is a
+   non-zero-expiry item of a saved block. *)
+Theorem C22_saved_tracked : forall (R : Type) (parse : R -> option block) (tree : index),
+  (forall r b, parse r = Some b -> tree (b_id b) = Some b) ->
+  forall (idx : index) (w : win) (W : Z) (target : block) (resps : list (resp R)),
+  sub idx tree ->
+  let p := populate idx w W target in
+  let s := syncer parse idx w W target resps in
+  let saved := snd (fst (fst s)) in
+  exists local,
+    snd (fst p) = rev local ++ [target] /\
+    local ++ saved = ancestors tree (length (local ++ saved)) target /\
+    (forall b, In b saved -> from_resps R parse resps b /\ tree (b_id b) = Some b) /\
+    (forall x, em_has (seen (fst (fst (fst s)))) x = true <->
+               em_has (seen (fst (fst p))) x = true \/
+               exists b e, In b saved /\ In (x, e) (b_items b) /\ e <> 0).
+Proof.
+  intros R parse tree ORACLE idx w W target resps Hsub.
+  destruct (syncer_spec R parse tree ORACLE idx w W target resps Hsub) as [local [H1 [H2 [H3 [H4 _]]]]].
+  exists local. repeat split; try assumption; try (apply H4).
+  - apply chain_from_ancestors. exact H2.
+  - apply H3; assumption.
+  - apply H3; assumption.
+Qed.
+Print Assumptions C22_saved_tracked.
+
+(* Exactness on completion (constant minimum = Syncer without UpdateSyncTarget; timestamps and
+   window non-negative so that min <= target.ts): the syncer reports completion iff local ++ saved
+   is the target's ancestry down to and INCLUDING the first ancestor with ts < min (such a list is
+   unique, C22_exact_unique); while it has not completed no saved block is below min.  With
+   C22_saved_tracked: on completion the tracked set is exactly what the local blocks gave plus the
+   non-zero-expiry items of exactly these ancestors.  If populate already saw the whole window
+   locally nothing is fetched or saved.  The guard that separates this from the F-22 finding is
+   inside the iff: completion needs SOME ancestor with ts < min. *)
+Theorem C22_exact : forall (R : Type) (parse : R -> option block) (tree : index),
+  (forall r b, parse r = Some b -> tree (b_id b) = Some b) ->
+  forall (idx : index) (w : win) (W : Z) (target : block) (resps : list (resp R)),
+  sub idx tree -> 0 <= W -> 0 <= b_ts target ->
+  let min := oldest_allowed W (b_ts target) in
+  (forall r, In r resps -> r_min r = min) ->
+  let p := populate idx w W target in
+  let s := syncer parse idx w W target resps in
+  let saved := snd (fst (fst s)) in
+  let complete := snd (fst s) in
+  exists local,
+    snd (fst p) = rev local ++ [target] /\
+    chain_from tree target (local ++ saved) /\
+    (snd p = true -> saved = [] /\ complete = true) /\
+    (snd p = false ->
+       (complete = true <-> below_last min (local ++ saved)) /\
+       (complete = false -> forall b, In b (local ++ saved) -> min <= b_ts b)).
+Proof.
+  intros R parse tree ORACLE idx w W target resps Hsub HW Hts min Hm.
+  destruct (syncer_spec R parse tree ORACLE idx w W target resps Hsub) as [local [H1 [H2 [_ [_ [H5 H6]]]]]].
+  exists local. split; [exact H1|]. split; [exact H2|]. split; [exact H5|].
+  intros Hp. assert (min <= b_ts target) as Hmin by (unfold min, oldest_allowed; lia).
+  destruct (H6 Hp Hm Hmin) as [Hl [Hiff Hopen]]. split; [exact Hiff|].
+  intros Hc b Hin. apply in_app_or in Hin. destruct Hin as [Hin|Hin]; [apply Hl | apply Hopen]; assumption.
+Qed.
+Print Assumptions C22_exact.
+
+Theorem C22_exact_unique : forall (tree : index) (min : Z) (start : block) (l1 l2 : list block),
+  chain_from tree start l1 -> chain_from tree start l2 ->
+  below_last min l1 -> below_last min l2 -> l1 = l2.
+Proof. exact below_last_unique. Qed.
+Print Assumptions C22_exact_unique.
+
+(* Progress: after ANY fault sequence [pre] that has not completed the backfill, a response whose
+   first raw parses to the block the client is asking for (the real next ancestor: its id is the
+   parent id of the last block received) makes the emitted sequence strictly longer, whatever
+   follows in that response. *)
+Theorem C22_progress : forall (R : Type) (parse : R -> option block) (tree : index),
+  (forall r b, parse r = Some b -> tree (b_id b) = Some b) ->
+  forall (start : block) (min : Z) (pre : list (resp R)) (r : resp R),
+  (forall r', In r' (pre ++ [r]) -> r_min r' = min) -> min <= b_ts start ->
+  snd (fst (client parse pre min start [] [])) = false ->
+  serves R parse r (next_expected R parse start min pre) ->
+  exists b tail, b_id b = next_expected R parse start min pre /\
+    fst (fst (client parse (pre ++ [r]) min start [] [])) =
+    fst (fst (client parse pre min start [] [])) ++ b :: tail.
+Proof. exact client_step_progress. Qed.
+Print Assumptions C22_progress.
+
+(* Completion: if the start block has an ancestor below the minimum ([full] = its ancestry down to
+   the first such block; this guard excludes exactly the F-22 situation), then every fault sequence
+   that contains at least |full| responses serving the request they answer, interleaved with
+   arbitrary faults ([serving_run]), closes the channel, and the emitted blocks are exactly [full]. *)
+Theorem C22_completes : forall (R : Type) (parse : R -> option block) (tree : index),
+  (forall r b, parse r = Some b -> tree (b_id b) = Some b) ->
+  forall (start : block) (min : Z) (full : list block) (resps : list (resp R)) (n : nat),
+  chain_from tree start full -> below_last min full -> min <= b_ts start ->
+  (forall r, In r resps -> r_min r = min) ->
+  serving_run R parse start min [] resps n -> (length full <= n)%nat ->
+  client parse resps min start [] [] = (full, true, snd (client parse resps min start [] [])).
+Proof. exact client_liveness. Qed.
+Print Assumptions C22_completes.
+
+(* KNOWN FINDING F-22 (client-never-completes-after-reaching-genesis): the property says the
+   backfill goes "back past the validity window (or to genesis)".  In this configuration (chain
+   younger than the window: genesis.ts = 5 >= min = 2) the first response serves genesis, the whole
+   ancestry has then been received, yet for EVERY continuation of the fault sequence the channel is
+   never closed and the client keeps requesting height 2^64-1. *)
+Theorem C22_genesis_refuted :
+  exists (parse : unit -> option block) (tree : index) (start genesis : block) (min : Z) (r0 : resp unit),
+  (forall r b, parse r = Some b -> tree (b_id b) = Some b) /\
+  tree (b_parent start) = Some genesis /\ b_height genesis = 0%N /\ tree (b_parent genesis) = None /\
+  forall resps : list (resp unit), (forall r, In r resps -> r_min r = min) ->
+    client parse (r0 :: resps) min start [] [] =
+      ([genesis], false, 0%N :: repeat (two64 - 1)%N (length resps)).
+Proof.
+  exists f22_parse, f22_tree, f22_start, f22_genesis, 2, f22_serve.
+  split; [exact f22_oracle|]. repeat split. exact f22_never_completes.
+Qed.
+Print Assumptions C22_genesis_refuted.
+
+(* ---- non-vacuity: a concrete chain 10 <- 11 <- 12 <- 13, ts 0..3, W = 1 (min = 2) ---- *)
+Definition ex_chain : list block :=
+  [ mkB 10 99 0 0 []; mkB 11 10 1 1 [(7%N, 5); (6%N, 0)]; mkB 12 11 2 2 [(8%N, 5)]; mkB 13 12 3 3 [] ].
+Definition ex_tree : index := tree_of ex_chain.
+Definition ex_target : block := mkB 13 12 3 3 [].
+Definition ex_parse (r : option block) : option block :=
+  match r with Some b => if existsb (fun c => N.eqb (b_id c) (b_id b)) ex_chain then ex_tree (b_id b) else None | None => None end.
+Definition ex_idx : index := idx_of ex_tree 3.     (* only the target is local *)
+(* error, garbage, a forged block, then block 12 followed by junk, an empty answer, then block 11 *)
+Definition ex_resps : list (resp (option block)) :=
+  [ mkResp 2 None; mkResp 2 (Some [None]); mkResp 2 (Some [Some (mkB 77 12 2 2 [])]);
+    mkResp 2 (Some [Some (mkB 12 11 2 2 [(8%N, 5)]); None]); mkResp 2 (Some []);
+    mkResp 2 (Some [Some (mkB 11 10 1 1 [(7%N, 5); (6%N, 0)])]) ].
+
+Lemma ex_oracle : forall r b, ex_parse r = Some b -> ex_tree (b_id b) = Some b.
+Proof.
+  intros [c|] b H; [|discriminate]. unfold ex_parse in H.
+  destruct (existsb (fun c0 => N.eqb (b_id c0) (b_id c)) ex_chain); [|discriminate].
+  unfold ex_tree, tree_of in *. pose proof (find_some _ _ H) as [_ Hid]. apply N.eqb_eq in Hid.
+  rewrite Hid. exact H.
+Qed.
+
+(* the hypotheses of C22_exact / C22_saved_tracked hold and the run completes, saving 12 and 11;
+   7 and 8 are tracked, the expiry-0 item 6 is not *)
+Example C22_exact_nonvacuous :
+  sub ex_idx ex_tree /\ (forall r, In r ex_resps -> r_min r = oldest_allowed 1 (b_ts ex_target)) /\
+  snd (populate ex_idx win0 1 ex_target) = false /\
+  let s := syncer ex_parse ex_idx win0 1 ex_target ex_resps in
+  map b_id (snd (fst (fst s))) = [12; 11]%N /\ snd (fst s) = true /\
+  map (em_has (seen (fst (fst (fst s))))) [7; 8; 6]%N = [true; true; false].
+Proof.
+  split; [apply idx_of_sub|]. split; [|vm_compute; repeat split].
+  intros r Hin. cbn in Hin. repeat (destruct Hin as [<-|Hin]; [reflexivity|]). destruct Hin.
+Qed.
+
+(* C22_progress / C22_completes: the same fault sequence is a serving run with 2 = |full| serving
+   responses *)
+Definition ex_full : list block := [mkB 12 11 2 2 [(8%N, 5)]; mkB 11 10 1 1 [(7%N, 5); (6%N, 0)]].
+Example C22_completes_nonvacuous :
+  chain_from ex_tree ex_target ex_full /\ below_last 2 ex_full /\ 2 <= b_ts ex_target /\
+  serving_run _ ex_parse ex_target 2 [] ex_resps 2 /\ (length ex_full <= 2)%nat.
+Proof.
+  split; [repeat (econstructor; [reflexivity|]); constructor|].
+  split.
+  { exists [mkB 12 11 2 2 [(8%N, 5)]], (mkB 11 10 1 1 [(7%N, 5); (6%N, 0)]).
+    split; [reflexivity|]. split; [cbn; lia|]. intros b [<-|[]]. cbn. lia. }
+  split; [cbn; lia|]. split; [|cbn; lia].
+  unfold ex_resps.
+  apply sr_fault. apply sr_fault. apply sr_fault.
+  apply sr_good. { eexists _, _, _. split; [reflexivity|]. split; reflexivity. }
+  apply sr_fault.
+  apply sr_good. { eexists _, _, _. split; [reflexivity|]. split; reflexivity. }
+  apply sr_nil.
+Qed.
+Example C22_progress_nonvacuous :
+  let pre := firstn 3 ex_resps in let r := nth 3 ex_resps (mkResp 0 None) in
+  (forall r', In r' (pre ++ [r]) -> r_min r' = 2) /\ 2 <= b_ts ex_target /\
+  snd (fst (client ex_parse pre 2 ex_target [] [])) = false /\
+  serves _ ex_parse r (next_expected _ ex_parse ex_target 2 pre).
+Proof.
+  cbn zeta. split; [|split; [cbn; lia|split; [reflexivity|]]].
+  - intros r' Hin. cbn in Hin. repeat (destruct Hin as [<-|Hin]; [reflexivity|]). destruct Hin.
+  - eexists _, _, _. split; [reflexivity|]. split; reflexivity.
+Qed.
